@@ -214,6 +214,8 @@ func (c *Ctx) dispatchSpec(pkg, name string) *dispatchSpec {
 			s := sigOf(t)
 			return s != nil && s.Params().Len() == 1 && isExprPtr(s.Params().At(0).Type()) && s.Results().Len() == 1 && isErrorType(s.Results().At(0).Type())
 		}}
+	case pkgExpr + ".toString":
+		return &dispatchSpec{isOp, isStringType}
 	case pkgLex + ".symbols":
 		return &dispatchSpec{func(t types.Type) bool {
 			b, ok := t.Underlying().(*types.Basic)
@@ -233,11 +235,16 @@ func (c *Ctx) readDispatchFn(pkg, name string) *Table {
 	}
 	var cands []*ssa.Function
 	for _, f := range c.Funcs {
-		if fnPkgPath(f) != pkg || f.Parent() != nil || f.Signature.Recv() != nil || len(f.Blocks) == 0 {
+		if fnPkgPath(f) != pkg || f.Parent() != nil || len(f.Blocks) == 0 {
 			continue
 		}
 		ps, rs := f.Signature.Params(), f.Signature.Results()
-		if ps.Len() != 1 || !spec.key(ps.At(0).Type()) || rs.Len() < 1 || rs.Len() > 2 || !spec.val(rs.At(0).Type()) {
+		if recv := f.Signature.Recv(); recv != nil {
+			// a method of the key type without further parameters: the receiver is the key
+			if ps.Len() != 0 || !spec.key(recv.Type()) || rs.Len() < 1 || rs.Len() > 2 || !spec.val(rs.At(0).Type()) {
+				continue
+			}
+		} else if ps.Len() != 1 || !spec.key(ps.At(0).Type()) || rs.Len() < 1 || rs.Len() > 2 || !spec.val(rs.At(0).Type()) {
 			continue
 		}
 		if rs.Len() == 2 && !isBool(rs.At(1).Type()) {
@@ -274,6 +281,9 @@ func (c *Ctx) readDispatchFn(pkg, name string) *Table {
 		val := c.resolve(p.Ret.Results[0], p.Env)
 		if len(p.Ret.Results) == 1 && isNilConst(val) {
 			continue // no entry
+		}
+		if s, isStr := constStringVal(val); isStr && s == "" && len(p.Ret.Results) == 1 {
+			continue // a name table without an entry yields the empty string, as a map lookup does
 		}
 		var key ssa.Value
 		nEq := 0
